@@ -409,6 +409,51 @@ def setupTerminals (cfg : Cfg) (strong : Bool) (cols : List Col) : M (List VarSy
   if cols.length < 2 then throw (.exc .insufficientData)
   else pure (setupVarsGo cfg.guards (categories strong cols) cols.tail 1 0)
 
+/-- a terminal `setup_terminals` inserts: a variable, or the constant of one of the states of a
+    nominal column (`constant<D_STRING>`: named by the text between quotes, evaluates to the text) -/
+inductive TermSym
+  | var (v : VarSym)
+  | const (name val : Str) (category : Option Nat)
+  deriving DecidableEq, Repr
+
+/-- `constant<std::string>::quote_str` -/
+def quoteStr (s : Str) : Str := '"' :: (s ++ ['"'])
+
+/-- the `for (const auto &s : columns[i].states) switch (columns[i].domain)` loop: states are texts,
+    so `std::get<D_DOUBLE / D_INT>` throws when the column is numeric; nothing is inserted (and nothing
+    is thrown: the `default:` branch builds an exception object without throwing it) for `d_void` -/
+def stateConsts (c : Col) (cat : Option Nat) : M (List TermSym) :=
+  match c.dom with
+  | .str => pure (c.states.map (fun s => .const (quoteStr s) s cat))
+  | .void => pure []
+  | _ => if c.states.isEmpty then pure [] else throw (.exc .badVariant)
+
+/-- the whole loop of `setup_terminals`: per column with a variable, the variable followed by the
+    constants of its states (insertion order; a `std::set` holds the states, its order is that of the
+    texts – the driver prints them in the order of `Col.states`, the tie sorts both sides) -/
+def setupSymsGo (guards : Bool) (cats : List (Option Nat × Dom)) : List Col → Nat → Nat → M (List TermSym)
+  | [], _, _ => pure []
+  | c :: cs, i, v =>
+    if guards && c.dom = .void then setupSymsGo guards cats cs (i + 1) v
+    else
+      stateConsts c (cats.getD i (none, .void)).1 >>= fun ks =>
+      setupSymsGo guards cats cs (i + 1) (v + 1) >>= fun rest =>
+      pure (.var { name := varName c i, var := v, category := (cats.getD i (none, .void)).1 } :: (ks ++ rest))
+
+/-- every terminal `setup_terminals` inserts, in insertion order -/
+def setupSymbols (cfg : Cfg) (strong : Bool) (cols : List Col) : M (List TermSym) :=
+  if cols.length < 2 then throw (.exc .insufficientData)
+  else setupSymsGo cfg.guards (categories strong cols) cols.tail 1 0
+
+def TermSym.category : TermSym → Option Nat
+  | .var v => v.category
+  | .const _ _ c => c
+
+/-- `symbol_set::categories()` after `setup_terminals` on an empty symbol set: `views_` grows up to
+    the largest category a symbol was inserted with -/
+def ssetCategories (syms : List TermSym) : Nat :=
+  syms.foldl (fun n s => match s.category with | some c => max n (c + 1) | none => n) 0
+
 /-- `src_interpreter::fetch_var`: `(*example_)[i]`, an out-of-bounds read when `i` is too large -/
 def fetchVar {F} (e : Example F) (i : Nat) : M (Val F) :=
   match e.input[i]? with
